@@ -349,8 +349,15 @@ def extract_unit(u: Unit, rewrite_log: list) -> List[Piece]:
         else:
             a = find_unique(m, u.anchor, u.name, lo, hi)
             a = src.rfind("\n", 0, a) + 1
-        e = find_unique(src if '"' in u.block_end else m, u.block_end, u.name + " (block_end)", a, hi)
-        e = src.rfind("\n", 0, e) + 1
+        if u.block_end == "@matching_brace":
+            # the block is ONE braced statement (e.g. a `match`): it ends with the brace matching the first `{`
+            ob = m.find("{", a)
+            e = match_brace(m, ob) + 1
+            nl = src.find("\n", e)
+            e = len(src) if nl < 0 else nl + 1
+        else:
+            e = find_unique(src if '"' in u.block_end else m, u.block_end, u.name + " (block_end)", a, hi)
+            e = src.rfind("\n", 0, e) + 1
         body = _apply_rewrites(src[a:e], [r for r in u.rewrites if not r.sig], u.name, rewrite_log)
         if u.wrap_open:
             pieces.append(Piece(u.wrap_open + "\n", "glue"))
